@@ -121,7 +121,13 @@ def run_case(ctx, g, rng):
     if g % 17 == 16:  # (a modulus coprime to the shard counts: these heavier cases spread over all shards)
         return big_map_case(ctx, g, rng, d)
     recs = gen.records(rng, d, 0, 6, allow_delim=rng.random() < 0.2)
-    c, how = gen.build(api, recs, d, rng)
+    if g % 9 == 4:
+        # the map arrives as a priority map or a reverse prefix map (entries shuffled): "independent of the order in
+        # which the records were supplied" holds for the order of a mapping's entries too (seed C01-S)
+        recs = gen.loader_friendly(recs)
+        c, how = gen.build(api, recs, d, rng, "via-loader")
+    else:
+        c, how = gen.build(api, recs, d, rng)
     sp = spec.SpecConverter(recs, d)
     allu = [u for r in recs for u in spec.all_u(r)]
     shape = gen.overlap_shape(recs)
